@@ -21,6 +21,10 @@ CHECKS = {
    text="Decides one necessary clause: the rebroadcast set is committed and compared - in consensus mode every accepting path of Block::validate passes cv.rebroadcast_hash == self.rebroadcast_hash and cv.total_rebroadcast_slips == self.total_rebroadcast_slips, and Block::generate accumulates both header values only under the ATR arm of the match on transaction type. Does not decide which outputs are eligible, ownership, amounts, or expiry across histories.",
    note=TRUST,
    technique="static analysis: must-pass-through over the MIR CFG; control-dependence of field writes on an enum arm"),
+ "C10": dict(level="other",
+   text="Decides panic-freedom of slicing / indexing / unwrapping / asserting on input bytes in the 15 decoder entry points and the byte-consuming callees they reach: every such operation is an obligation discharged by linear length facts from dominating tests (len < e => exit, len != c => exit, is_empty), loop-index facts of Range iteration, integer-division facts and constant-width try_into, with callees analysed in the caller's context (constant length or provable lower bound) and is_err()/is_ok() variant knowledge for unwraps. Decoders that cannot express failure are judged through all their call sites. Does not decide the allocation bound or arithmetic overflow (64-bit usize assumed). Three genuine defects (decoders that cannot reject) are recorded as known findings.",
+   note=TRUST + " The linear prover (analysis/linear.py) is a sound-by-construction combination search: it only ever subtracts non-negative multiples of available facts.",
+   technique="static analysis: available-facts dataflow of linear length inequalities (ABCD-style bounds-check elimination) over MIR, context-sensitive over decoder callees"),
  "C14": dict(level="other",
    text="Decides that the pool and its reservation index move together on every path: each site removing pooled transactions releases their inputs in utxo_map before any success exit (a loop over the removed transactions counts from its header; a retain-style closure may release inside), each inserting site reserves them, and bundle_block has no failure exit between draining the pool and returning. Necessary for 'an unspent output that no pooled transaction spends can always be spent' and for the bundling clause; does not decide pool/ledger consistency over interleavings. One genuine defect (non-atomic bundling on Block::create failure) is recorded as a known finding.",
    note=TRUST,
